@@ -119,7 +119,8 @@ impl<I: ObjectWrite> Stream<I> {
             Primitive::Null => Dictionary::new(),
             p => bail!("stream info has to be a dictionary (found {:?})", p)
         };
-        let mut params = None;
+        let mut params = Vec::new();
+        let mut has_params = false;
         if self.info.filters.len() > 0 {
             for f in self.info.filters.iter() {
                 if let Some(para) = match f {
@@ -130,8 +131,10 @@ impl<I: ObjectWrite> Stream<I> {
                     StreamFilter::JBIG2Decode(ref p) => Some(p.to_primitive(update)?),
                     _ => None
                 } {
-                    assert!(params.is_none());
-                    params = Some(para);
+                    has_params = true;
+                    params.push(para);
+                } else {
+                    params.push(Primitive::Null);
                 }
             }
             let mut filters = self.info.filters.iter().map(|filter| match filter {
@@ -157,7 +160,8 @@ impl<I: ObjectWrite> Stream<I> {
                 }
             }
         }
-        if let Some(para) = params {
+        if has_params {
+            let para = if params.len() == 1 { params.remove(0) } else { Primitive::Array(params) };
             info.insert("DecodeParms", para);
         }
 
